@@ -39,6 +39,9 @@ Fails(X) ==
    ELSE IF m.out = "crash" THEN {"C16:KNOWN_crash"} ELSE {"C16:unclean_failure"}) \cup
   (IF X.real.out = "ok" /\ ~ValidProfile(AsProf(X.real.prof))
    THEN (IF m.out = "ok" /\ ~ValidProfile(m.prof) THEN {"C16:KNOWN_invalid_profile"} ELSE {"C16:invalid_profile"}) ELSE {}) \cup
+  (* C15, second sentence: no accepted profile breaks the profile invariants (the same observation, claimed by both properties) *)
+  (IF X.real.out = "ok" /\ ~ValidProfile(AsProf(X.real.prof))
+   THEN (IF m.out = "ok" /\ ~ValidProfile(m.prof) THEN {"C15:KNOWN_invalid_profile"} ELSE {"C15:accepted_invalid_profile"}) ELSE {}) \cup
   (IF X.real.out = "ok" /\ X.real.prof.droop = <<>> /\ ~X.ctor_ok
    THEN (IF m.out = "ok" /\ ~ValidProfile(m.prof) THEN {"C16:KNOWN_constructor_fails"} ELSE {"C16:constructor_fails"}) ELSE {}) \cup
   (* binding: the reader specification and the code agree on the outcome and on every field *)
